@@ -149,7 +149,7 @@ func ruleC20NoExit(c *Ctx) {
 			if call.Common().IsInvoke() {
 				what = call.Common().Method.Name()
 			}
-			c.S.Bad("R-C20-no-exit", fmt.Sprintf("%s:%s#%d", fnName(fn), what, n), c.Pos(c.InstrPos(in)),
+			c.S.BadAlt("R-C20-no-exit", fmt.Sprintf("%s:%s#%d", fnName(fn), what, n), fmt.Sprintf("api-reachable:%s#%d", what, n), c.Pos(c.InstrPos(in)),
 				fmt.Sprintf("%s calls %s, reachable from %s: an error (e.g. the port is still in use) terminates the process that embeds the emulator", fnName(fn), what, strings.Join(from[:min(3, len(from))], ", ")))
 		}
 	}
@@ -208,8 +208,47 @@ func ruleC20InstanceState(c *Ctx) {
 				uniq = append(uniq, w)
 			}
 		}
-		c.S.Bad("R-C20-instance-state", key, c.Pos(g.Pos()), fmt.Sprintf("package-level %s is written at run time by %s: every emulator instance in the process shares it (clients of one instance are listed, killed and counted by another; a stall on its mutex stalls all instances)", g.Name(), strings.Join(uniq[:min(4, len(uniq))], ", ")))
+		// second identity for the known-findings file: the type of the variable (and, for a plain number or string, who
+		// writes it) — a renamed variable is still the same finding
+		alt := "global of type " + typeString(deref(g.Type()))
+		if _, basic := deref(g.Type()).Underlying().(*types.Basic); basic {
+			if selfIncremented(c, g) {
+				alt += " (a counter: only ever incremented)"
+			} else {
+				alt += " written by " + strings.Join(uniq, ",")
+			}
+		}
+		c.S.BadAlt("R-C20-instance-state", key, alt, c.Pos(g.Pos()), fmt.Sprintf("package-level %s is written at run time by %s: every emulator instance in the process shares it (clients of one instance are listed, killed and counted by another; a stall on its mutex stalls all instances)", g.Name(), strings.Join(uniq[:min(4, len(uniq))], ", ")))
 	}
+}
+
+// selfIncremented: every run-time store to the global stores (its own value + a constant).
+func selfIncremented(c *Ctx, g *ssa.Global) bool {
+	n := 0
+	for _, fn := range c.SrcFuncs() {
+		if fn.Name() == "init" && fn.Parent() == nil {
+			continue
+		}
+		for _, in := range instrsOf(fn) {
+			st, ok := in.(*ssa.Store)
+			if !ok || st.Addr != ssa.Value(g) {
+				continue
+			}
+			n++
+			bo, ok := st.Val.(*ssa.BinOp)
+			if !ok || bo.Op != token.ADD {
+				return false
+			}
+			u, ok := bo.X.(*ssa.UnOp)
+			if !ok || u.X != ssa.Value(g) {
+				return false
+			}
+			if _, isC := constInt(bo.Y); !isC {
+				return false
+			}
+		}
+	}
+	return n > 0
 }
 
 const textC20Retry = "R-C20-retry-live: a retry loop around the construction of the emulator depends on an error its callee can actually return — otherwise the documented 'wait for the port to be released' never happens"
